@@ -923,7 +923,19 @@ def _r10_2_rest(ctx, mod):
   else:
     h = conv[0]
     last = h.body[-1] if h.body else None
-    raised = _exc_name(last.exc) if isinstance(last, ast.Raise) else None
+    exc = last.exc if isinstance(last, ast.Raise) else None
+    if isinstance(exc, ast.Name):
+      # `err = MROError(..); raise err from e`: the once-bound local
+      binds = [n.value for st in h.body for n in ast.walk(st)
+               if isinstance(n, ast.Assign) and len(n.targets) == 1
+               and isinstance(n.targets[0], ast.Name) and n.targets[0].id == exc.id]
+      if len(binds) == 1:
+        exc = binds[0]
+      elif exc.id != h.name:
+        raise AnalysisError(
+            f"MROMerge: `raise {exc.id}` in the ValueError handler: the raised "
+            "object could not be resolved")
+    raised = _exc_name(exc) if exc is not None else None
     facts["raises"] = raised
     exact = all(t == "ValueError" for t in types)
     ctx.check(raised == "MROError" and exact, "MROMerge:convert", MRO, h.lineno,
@@ -1003,13 +1015,25 @@ def r10_3(ctx):
   qual = f"{owner}._lookup_from_mro"
   fn = mod.methods(owner)["_lookup_from_mro"]
   params = [a.arg for a in fn.args.args]
+
+  def iter_of(loop):
+    """The iterated expression, a once-bound local replaced by its value."""
+    it = loop.iter
+    if isinstance(it, ast.Name):
+      binds = [n for n in walk_no_nested(fn) if isinstance(n, ast.Name)
+               and n.id == it.id and isinstance(n.ctx, ast.Store)]
+      if len(binds) == 1 and isinstance(mod.parent.get(binds[0]), ast.Assign) \
+          and len(mod.parent[binds[0]].targets) == 1 and \
+          mod.parent[binds[0]].lineno < loop.lineno:
+        return mod.parent[binds[0]].value
+    return it
   loops = [n for n in walk_no_nested(fn) if isinstance(n, ast.For)
            and any(isinstance(a, ast.Attribute) and a.attr == "mro"
-                   for a in ast.walk(n.iter))]
+                   for a in ast.walk(iter_of(n)))]
   if len(loops) != 1:
     raise AnalysisError(f"{qual}: expected one loop over .mro, found {len(loops)}")
   loop = loops[0]
-  it = loop.iter
+  it = iter_of(loop)
   forward = isinstance(it, ast.Attribute) and it.attr == "mro" and \
       isinstance(it.value, ast.Name) and it.value.id in params[1:]
   ctx.check(forward, f"{qual}:forward-iteration", ATTR, loop.lineno,
@@ -1337,6 +1361,10 @@ def _r10_6_structural(ctx, mod):
   node = t
   while node is not None and not isinstance(node, ast.stmt):
     node = mod.parent.get(node)
+  if not (isinstance(node, ast.If) and any(x is t for x in ast.walk(node.test))):
+    raise AnalysisError(
+        "MergeSequences: the tail test is not part of an if-condition (it is "
+        f"evaluated in `{src(node)[:50]}`): rejecting arm not recognised")
   rejects = isinstance(node, ast.If) and any(
       isinstance(s, ast.Assign) and dotted(s.targets[0]) == cand
       and isinstance(s.value, ast.Constant) and s.value.value is None
@@ -2304,6 +2332,34 @@ VARIANTS = [
      "edits": [(VMU, "      val = class_type(\n          name,\n          bases,\n          class_dict.pyval,\n          cls,\n          ctx.vm.current_opcode,\n          props.undecorated_methods,\n          ctx,\n      )\n",
                 "      val = _probe_class(class_type, name, bases, class_dict, cls, ctx, props)\n"),
                (VMU, _VM_ANCHOR, _BUILD_HELPER + _VM_ANCHOR)]},
+    {"name": 'twin-merge-while-any', "rule": 'R10.9', "expect": 'silent',
+     "edits": [('pytype/pytd/mro.py', '  while True:\n    if not any(seqs):  # any empty subsequence left?\n      return res\n    for seq in seqs:', '  while any(seqs):\n    for seq in seqs:'), ('pytype/pytd/mro.py', '    res.append(cand)\n', '    res.append(cand)\n  return res\n')]},
+    {"name": 'twin-merge-condition-local-and-continue', "rule": 'R10.6', "expect": 'silent',
+     "edits": [('pytype/pytd/mro.py', '      cand = seq[0]\n      if getattr(cand, "SINGLETON", False):\n        # Special class. Cycles are allowed. Emit and remove duplicates.\n        seqs = [[s for s in seq if s != cand] for seq in seqs]  # pylint: disable=g-complex-comprehension\n        break\n      if any(s for s in seqs if cand in s[1:] and s is not seq):\n        cand = None  # reject candidate\n      else:\n        # Remove and emit. The candidate can be head of more than one list.\n        for other_seq in seqs:\n          if other_seq and other_seq[0] == cand:\n            del other_seq[0]\n        break\n    if cand is None:\n      raise ValueError\n    res.append(cand)\n', '      head = seq[0]\n      if getattr(head, "SINGLETON", False):\n        seqs = [[s for s in seq if s != head] for seq in seqs]\n        break\n      blocked = any(head in s[1:] for s in seqs if s is not seq)\n      if blocked:\n        head = None\n        continue\n      for other_seq in seqs:\n        if other_seq and other_seq[0] == head:\n          del other_seq[0]\n      break\n    if head is None:\n      raise ValueError\n    res.append(head)\n')]},
+    {"name": 'merge-condition-local-tail-off-by-one', "rule": 'R10.6', "expect": 'fire',
+     "edits": [('pytype/pytd/mro.py', '      cand = seq[0]\n      if getattr(cand, "SINGLETON", False):\n        # Special class. Cycles are allowed. Emit and remove duplicates.\n        seqs = [[s for s in seq if s != cand] for seq in seqs]  # pylint: disable=g-complex-comprehension\n        break\n      if any(s for s in seqs if cand in s[1:] and s is not seq):\n        cand = None  # reject candidate\n      else:\n        # Remove and emit. The candidate can be head of more than one list.\n        for other_seq in seqs:\n          if other_seq and other_seq[0] == cand:\n            del other_seq[0]\n        break\n    if cand is None:\n      raise ValueError\n    res.append(cand)\n', '      head = seq[0]\n      if getattr(head, "SINGLETON", False):\n        seqs = [[s for s in seq if s != head] for seq in seqs]\n        break\n      blocked = any(head in s[2:] for s in seqs if s is not seq)\n      if blocked:\n        head = None\n        continue\n      for other_seq in seqs:\n        if other_seq and other_seq[0] == head:\n          del other_seq[0]\n      break\n    if head is None:\n      raise ValueError\n    res.append(head)\n')]},
+    {"name": 'twin-compute_mro-row-map-nested-comprehension', "rule": 'R10.1', "expect": 'silent',
+     "edits": [('pytype/abstract/class_mixin.py', '    base2cls = {}\n    newbases = []\n    for row in bases:\n      baselist = []\n      for base in row:\n        if isinstance(base, _abstract.ParameterizedClass):\n          base2cls[base.base_cls] = base\n          baselist.append(base.base_cls)\n        else:\n          base2cls[base] = base\n          baselist.append(base)\n      newbases.append(baselist)\n', '    def erase(c):\n      return c.base_cls if isinstance(c, _abstract.ParameterizedClass) else c\n    base2cls = {erase(c): c for row in bases for c in row}\n    newbases = [[erase(c) for c in row] for row in bases]\n')]},
+    {"name": 'twin-lookup-return-at-first-hit', "rule": 'R10.3', "expect": 'silent',
+     "edits": [('pytype/attribute.py', '      break  # we found a class which has this attribute\n', '      return ret  # we found a class which has this attribute\n')]},
+    {"name": 'twin-rewrite-mro-starred-rows', "rule": 'R10.1', "expect": 'silent',
+     "edits": [('pytype/rewrite/abstract/classes.py', '    mro_bases = [[self]] + [list(base.mro()) for base in bases] + [bases]\n', '    base_mros = [list(base.mro()) for base in bases]\n    mro_bases = [[self], *base_mros, bases]\n')]},
+    {"name": 'twin-make_class-mro-error-logged-in-helper', "rule": 'R10.2', "expect": 'silent',
+     "edits": [('pytype/vm_utils.py', '    except mro.MROError as e:\n      ctx.errorlog.mro_error(ctx.vm.frames, name, e.mro_seqs)\n      var = ctx.new_unsolvable(node)\n', '    except mro.MROError as e:\n      _report_mro_error(ctx, name, e)\n      var = ctx.new_unsolvable(node)\n'), ('pytype/vm_utils.py', 'def make_class(node, props, ctx):\n', 'def _report_mro_error(ctx, name, e):\n  ctx.errorlog.mro_error(ctx.vm.frames, name, e.mro_seqs)\n\n\ndef make_class(node, props, ctx):\n')]},
+    {"name": 'make_class-mro-error-helper-does-not-log', "rule": 'R10.2', "expect": 'fire',
+     "edits": [('pytype/vm_utils.py', '    except mro.MROError as e:\n      ctx.errorlog.mro_error(ctx.vm.frames, name, e.mro_seqs)\n      var = ctx.new_unsolvable(node)\n', '    except mro.MROError as e:\n      _report_mro_error(ctx, name, e)\n      var = ctx.new_unsolvable(node)\n'), ('pytype/vm_utils.py', 'def make_class(node, props, ctx):\n', 'def _report_mro_error(ctx, name, e):\n  log.info("bad mro for %s: %r", name, e.mro_seqs)\n\n\ndef make_class(node, props, ctx):\n')]},
+    {"name": "twin-lookup-mro-hoisted-into-local", "rule": "R10.3", "file": ATTR, "expect": "silent",
+     "old": "    for base in cls.mro:\n      var = self._lookup_from_mro_flat(",
+     "new": "    linearisation = cls.mro\n    for base in linearisation:\n      var = self._lookup_from_mro_flat("},
+    {"name": "lookup-hoisted-local-is-reversed-mro", "rule": "R10.3", "file": ATTR, "expect": "fire",
+     "old": "    for base in cls.mro:\n      var = self._lookup_from_mro_flat(",
+     "new": "    linearisation = cls.mro[::-1]\n    for base in linearisation:\n      var = self._lookup_from_mro_flat("},
+    {"name": "twin-MROMerge-raises-prebuilt-error", "rule": "R10.2", "file": MRO, "expect": "silent",
+     "old": "  except ValueError as e:\n    raise MROError(input_seqs) from e",
+     "new": "  except ValueError as exc:\n    error = MROError(input_seqs)\n    raise error from exc"},
+    {"name": "MROMerge-raises-prebuilt-other-error", "rule": "R10.2", "file": MRO, "expect": "fire",
+     "old": "  except ValueError as e:\n    raise MROError(input_seqs) from e",
+     "new": "  except ValueError as exc:\n    error = TypeError(input_seqs)\n    raise error from exc"},
     # R10.1
     {"name": "compute_mro-bases-row-first", "rule": "R10.1", "file": MIXIN, "expect": "fire",
      "old": "bases = [[self]] + [list(base.mro) for base in bases] + [list(bases)]",
